@@ -18,6 +18,11 @@ pub struct HState {
     pub log: Vec<String>,
     pub sweep: SweepMode,
     pub failed: bool,
+    /// the entity of a builder whose chain is running (a panic may interrupt it)
+    pub pending_builder: Option<Entity>,
+    /// entities of builders whose chain was interrupted by a panic: no creation event reports them,
+    /// the fault event does; they are observed like the script's own handles
+    pub orphans: Vec<Entity>,
 }
 
 #[derive(Clone, Copy, PartialEq)]
@@ -62,7 +67,9 @@ fn emit_w(cx: &Cx, ev: &mut Value, world: Option<&World>) {
 fn probe_set(st: &HState) -> Vec<Entity> {
     let n = st.handles.len();
     if n <= 40 {
-        return st.handles.clone();
+        let mut v = st.handles.clone();
+        v.extend(st.orphans.iter().rev().take(4));
+        return v;
     }
     let mut v: Vec<Entity> = Vec::with_capacity(40);
     let mut x = st.opno.wrapping_mul(6364136223846793005).wrapping_add(1442695040888963407);
@@ -74,6 +81,7 @@ fn probe_set(st: &HState) -> Vec<Entity> {
         }
     }
     v.extend_from_slice(&st.handles[n - 24..]);
+    v.extend(st.orphans.iter().rev().take(4));
     v
 }
 
@@ -245,9 +253,11 @@ pub fn exec_op(cx: &Cx, world: &mut World, op: &Value) {
             let e = {
                 let ents = world.entities();
                 let mut b = ents.build_entity();
+                lock(cx).pending_builder = Some(b.entity);
                 for (s, c) in &with {
                     b = cx.stores[*s].with_res_builder(b, world, *c);
                 }
+                lock(cx).pending_builder = None;
                 if o == "ebuild" {
                     b.build()
                 } else {
@@ -456,11 +466,20 @@ pub fn exec_op(cx: &Cx, world: &mut World, op: &Value) {
                 Ok(()) => {}
                 Err(msg) => {
                     if fired {
-                        emit(
-                            cx,
-                            json!({"op":"Fault","in":opname(&inner),"k":k,"msg":msg,"ledger":ledger::dump()}),
-                            Some(&*world),
-                        );
+                        let mut fev = json!({"op":"Fault","in":opname(&inner),"k":k,"msg":msg,"ledger":ledger::dump()});
+                        let orphan = {
+                            let mut g = lock(cx);
+                            let o = g.pending_builder.take();
+                            if let Some(e) = o {
+                                g.orphans.push(e);
+                            }
+                            o
+                        };
+                        if let Some(e) = orphan {
+                            // the builder was dropped by the unwinding: its entity exists and awaits deletion
+                            fev["orphan"] = hj(e);
+                        }
+                        emit(cx, fev, Some(&*world));
                     } else {
                         // not ours: an ordinary panic of the code under test
                         std::panic::resume_unwind(Box::new(msg));
@@ -561,6 +580,8 @@ pub fn run_script(script: &Value) -> Vec<String> {
             log: vec![],
             sweep: sweep_mode,
             failed: false,
+            pending_builder: None,
+            orphans: vec![],
         }),
         stores,
     });
